@@ -62,3 +62,26 @@ Print Assumptions C06_reach_terminates.
 Print Assumptions C06_validation_accepts_wf.
 Print Assumptions C06_search_terminates.
 Print Assumptions C06_prune_states_terminates.
+
+(** Termination of the reward loop (exact rationals) for ranked games: if every transition leads to a state
+    of strictly smaller rank - except among the states of rank < k0, which may loop among themselves
+    provided their values are already fixed (absorbing zero-reward end states with self-loops: k0 = 1) -
+    the loop stops within R - k0 + 1 sweeps, R a bound on the ranks. Covers every acyclic game; the proof
+    is by locality of the reward step and induction on the rank (Proofs/RewTermQ.v). Termination for
+    games with probabilistic cycles is not proved; for non-stopping games it is false (K4). *)
+From CR Require Import Proofs.RewTermQ Props.C06T.
+Theorem C06_rewards_terminate_ranked :
+  forall (rk : nat -> nat) (R k0 : nat) (sl : list (node (T:=Q))) (i fuel : nat),
+  (forall s, (0 <= rew (getn qops sl s))%Q /\
+             (nk (getn qops sl s) = PR -> forall t, In t (nxt (getn qops sl s)) -> (0 < pr t)%Q)) ->
+  (forall s, (0 <= er (getn qops sl s))%Q) ->
+  (forall s t, s < length sl -> In t (nxt (getn qops sl s)) ->
+               dst t < length sl /\ (rk (dst t) < rk s \/ (rk s < k0 /\ rk (dst t) < k0))) ->
+  (forall s, s < length sl -> rk s < k0 ->
+     rew_step qops sl (getn qops sl s) =
+     Some (er (getn qops sl s), ermr (getn qops sl s), erm (getn qops sl s))) ->
+  (forall s, s < length sl -> rk s < R) -> k0 <= R ->
+  R - k0 + 1 <= fuel ->
+  exists sl' j, vi_rew qops fuel sl i = Ok (sl', i + j) /\ 1 <= j <= R - k0 + 1.
+Proof. exact Props.C06T.C06_rewards_terminate_ranked. Qed.
+Print Assumptions C06_rewards_terminate_ranked.
